@@ -49,6 +49,5 @@ json.dump({'name': name, 'property': meta.get('property'), 'summary': meta.get('
           open(os.path.join(out, 'meta.json'), 'w'), indent=1)
 EOF
 # restore the generated leaves and the evidence files to those of the unpatched tree
-( cd /verif && python3 tools/leafgen.py >/dev/null 2>&1 )
 # the private build areas of the experiments are not kept
-rm -rf /verif/build/exp_* 2>/dev/null
+python3 -c "import hashlib,shutil,sys; shutil.rmtree('/verif/build/exp_'+hashlib.sha256(sys.argv[1].encode()).hexdigest()[:10], ignore_errors=True)" "$WT"
